@@ -118,6 +118,16 @@ CHECKS.update({
             "DESIGN.md section 3 C15"),
 })
 
+CHECKS.update({
+    "C16": ("Bounded symbolic execution of the report writers: write_double_quoted against an independent YAML 1.1 double-quoted decoder "
+            "(one symbolic character per class with quote/backslash/space neighbours); the whole hand-built VCR document (real vcr_writer fed through a "
+            "pre-filled queue) with a symbolic URL character, a symbolic latin-1 header character, every metadata/response/body shape, judged by "
+            "PyYAML's safe_load and compared field by field; CassetteWriter.handle_event and JunitXMLHandler over symbolic scenario histories "
+            "(no crash, every exchange delivered once). Characters crossing C boundaries are realised: decided one value per path over a stated finite domain.",
+            "CrossHair symbolic execution (z3) of write_double_quoted/vcr_writer/CassetteWriter.handle_event/JunitXMLHandler.handle_event with symbolic characters and event histories; PyYAML as judge",
+            "DESIGN.md section 3 C16"),
+})
+
 NOT_APPLICABLE = {
     "C13": "Seed reproducibility is a 2-run hyper-property of the whole program through Hypothesis' engine, its PRNG, identity-keyed caches and "
            "set iteration order; none of it can be made a symbolic variable of a bounded encoding, and the only solver-shaped fragment "
